@@ -2,6 +2,7 @@ package harness
 
 import (
 	"flag"
+	"os"
 	"fmt"
 	"io"
 	"math/rand/v2"
@@ -255,6 +256,11 @@ func execute(t *testing.T, p *Prop, pl *plan.Plan, keepLog bool) (out *plan.Outc
 			if strings.Contains(msg, "blocked goroutines remain") || strings.Contains(msg, "deadlock") {
 				// goroutines left behind when the bubble's root returned
 				out.Add("bubble.leftover_goroutines", 1)
+				if os.Getenv("VERIF_DEBUG") != "" {
+					buf := make([]byte, 1<<20)
+					n := runtime.Stack(buf, true)
+					os.Stderr.Write(buf[:n])
+				}
 				if out.Trouble == "" && len(out.Violations) == 0 {
 					out.Trouble = "bubble ended with blocked goroutines: " + msg
 				}
@@ -269,7 +275,15 @@ func execute(t *testing.T, p *Prop, pl *plan.Plan, keepLog bool) (out *plan.Outc
 		}
 	}()
 	keepLogFlag = keepLog
-	if p.NoBubble {
+	switch pl.Mode {
+	case "plain":
+		simrt.SetMode(simrt.ModeOff)
+	case "race":
+		simrt.SetMode(simrt.ModeRace)
+	default:
+		simrt.SetMode(simrt.ModeSim)
+	}
+	if p.NoBubble || pl.Mode == "plain" {
 		p.Run(pl, out)
 		return out
 	}
